@@ -116,6 +116,16 @@ DetList == <<
    DT(Wide(20), <<>>, <<>>, 7),
    [DT(Wide(40), <<>>, Aux3, 8) EXCEPT !.ext = 2]
 >>
+\* Thorough tier: a grid of segment counts (widths around the multiples of 8) x LDE sizes around the
+\* concurrency thresholds, with an auxiliary segment on every other instance
+DetGridSeq == LET ws == <<8, 9, 17, 24, 25, 33>>
+                  ls == << <<7, 8>>, <<8, 4>>, <<10, 2>>, <<10, 8>> >>
+              IN [k \in 1..(Len(ws) * Len(ls)) |->
+                    LET w == ws[((k - 1) % Len(ws)) + 1]
+                        l == ls[((k - 1) \div Len(ws)) + 1]
+                    IN [DT(Wide(w), <<>>, IF k % 2 = 0 THEN Aux3 ELSE <<>>, l[1]) EXCEPT !.blowup = l[2], !.ext = 1 + ((k % 3) % 2)]]
+DetGridOk == \A i \in 1..Len(DetGridSeq) : Supported(DetGridSeq[i])
+EmitDetGrid == (phase = "field") => \A i \in 1..Len(DetGridSeq) : PrintT(<<"DETGRID", ToJson(CaseOf(DetGridSeq[i]))>>)
 DetOk == \A i \in 1..Len(DetList) : Supported(DetList[i])
 EmitDet == (phase = "field") => \A i \in 1..Len(DetList) : PrintT(<<"DET", ToJson(CaseOf(DetList[i]))>>)
 
